@@ -149,6 +149,34 @@ SHAPES = {
                  lambda k: (lambda s: _u16(len(s)) + s)((lambda one: (_u16(len(one)) + one))(
                      b'\x00' + bytes(32) + bytes(8) + _u16(0) + b'\x04\x03' + _u16(4) + b'sig!') * k), 20),
 }
+def _claiming_chunks(ext_type, count, tail=b'\x00\x17\x00\x00'):
+    """count extensions of one type whose 2-byte body is an inner vector length claiming all remaining bytes
+    (a hostile but well-framed extension list), closed by one well-formed extension."""
+    chunks = []
+    remaining = len(tail) + 6 * count
+    for _ in range(count):
+        remaining -= 6
+        chunks.append(_u16(ext_type) + _u16(2) + _u16(min(0xffff, remaining)))
+    return b''.join(chunks) + tail
+
+
+# (extension types whose body starts with a two-byte inner length; with a one-byte inner length the claimed value
+# wraps around as the input grows and the series is not a scaling series)
+for _ext_type, _ext_name in ((0x000a, 'groups'), (0x000d, 'sig_algs'), (0x0010, 'alpn'), (0x0000, 'sni'),
+                             (0x0033, 'key_share'), (0x0032, 'sig_algs_cert')):
+    SHAPES['tls_ext_inner_length_claims_rest_' + _ext_name] = (
+        'cryptoparser.tls.subprotocol.TlsHandshakeClientHello',
+        (lambda ext_type: lambda k: _client_hello(extensions=_claiming_chunks(ext_type, k)))(_ext_type), 100)
+    SHAPES['tls_ext_list_inner_length_claims_rest_' + _ext_name] = (
+        'cryptoparser.tls.extension.TlsExtensionsClient',
+        (lambda ext_type: lambda k: (lambda body: _u16(len(body)) + body)(_claiming_chunks(ext_type, k)))(_ext_type), 100)
+
+for _header in (b'Server: nginx', b'Age: 1', b'Pragma: no-cache', b'ETag: "x"', b'Date: Thu, 01 Jan 1970 00:00:00 GMT',
+                b'X-Frame-Options: DENY', b'X-Unknown: v', b'Strict-Transport-Security: max-age=1'):
+    for _eol_name, _eol in (('lf', b'\n'), ('cr', b'\r'), ('lfcr', b'\n\r')):
+        SHAPES['http_%s_lines_bare_%s' % (_header.split(b':')[0].decode().lower(), _eol_name)] = (
+            H + 'HttpHeaderFields', (lambda line, eol: lambda k: (line + eol) * k + eol)(_header, _eol), 40)
+
 SHAPE_NAMES = sorted(SHAPES)
 SCALES = (1, 2, 4, 8, 16)
 
@@ -191,6 +219,10 @@ def auto_shapes():
             seen_hosts.add((path, sep))
             for item in vocab.get((module, sep), [])[:60]:
                 shapes.append((path, raw.hex(), sep.hex(), 0, item.hex()))
+                if sep == b'\r\n':
+                    # the same lines ended by a bare LF / CR, as a sloppy or hostile peer sends them
+                    shapes.append((path, raw.replace(b'\r\n', b'\n').hex(), b'\n'.hex(), 0, item.hex()))
+                    shapes.append((path, raw.replace(b'\r\n', b'\r').hex(), b'\r'.hex(), 0, item.hex()))
         _AUTO_SHAPES = shapes
     return _AUTO_SHAPES
 
